@@ -268,7 +268,8 @@ func (v *Vue) evalSegment(ctx VueContext, seg pipeSegment, input any, isFirst, f
 		if input != nil {
 			env["."] = input
 		}
-		result, err := v.exprEval.Eval(seg.expr, env)
+		// === and !== are accepted everywhere v-if accepts them
+		result, err := v.exprEval.Eval(helpers.NormalizeComparisonOperators(seg.expr), env)
 		if err != nil {
 			return nil, fmt.Errorf("in expression '%s': %w", seg.expr, err)
 		}
